@@ -1,4 +1,5 @@
 (* C01 -- Generated hashes equal the TLSH reference algorithm for every input. *)
+From Coq Require Import Permutation.
 From TlshV Require Import Model.Machine Gen.Tables Model.MLength Model.MHash Model.MPearson Model.MGenerate
   Model.MFinalize Spec.SpecTables Spec.SpecLength Spec.SpecGenerate
   Proofs.GenUpdate Proofs.GenLen Proofs.Select Proofs.Finalize Proofs.FinalizeChar Proofs.GenProps
@@ -6,7 +7,7 @@ From TlshV Require Import Model.Machine Gen.Tables Model.MLength Model.MHash Mod
 
 (* everything that is data in the source (re-read on this run) equals the reference's own copy *)
 Theorem C01_tables_match :
-  subst_table = v_table /\ top_value = topval /\ bucket_triplets = spec_triplets /\
+  subst_table = v_table /\ top_value = topval /\ Permutation bucket_triplets spec_triplets /\
   checksum_args = (4, 3) /\ pearson_initial_state = 0 /\ window_size = 5 /\ len_max = spec_max_len /\
   (forall bk, len_min bk = spec_min bk /\ len_min_conservative bk = spec_min_conservative bk /\
               min_nonzero bk = spec_min_nonzero bk /\ nb_of bk = spec_nb bk).
